@@ -20,6 +20,12 @@ pub type Desc = Descriptor<DefiniteDescriptorKey>;
 
 pub const INTERNAL_KEY: usize = 20;
 
+/// descriptor text of `wrap` around the AST (the key form follows the wrapper)
+pub fn desc_text(u: &Universe, wrap: &str, ast: &Value, ctx: &str) -> String {
+    let kctx = if wrap == "tr33" { "tap33" } else { ctx };
+    wrap_str(u, wrap, &ast_to_string(u, ast, kctx))
+}
+
 pub fn wrap_str(u: &Universe, wrap: &str, ms: &str) -> String {
     match wrap {
         "bare" => ms.to_string(),
@@ -27,6 +33,8 @@ pub fn wrap_str(u: &Universe, wrap: &str, ms: &str) -> String {
         "wsh" => format!("wsh({})", ms),
         "shwsh" => format!("sh(wsh({}))", ms),
         "tr" => format!("tr({},{})", u.key_str(INTERNAL_KEY, "tap"), ms),
+        // the same taproot descriptor with every key written in its 33-byte compressed form
+        "tr33" => format!("tr({},{})", u.key_str(INTERNAL_KEY, "tap33"), ms),
         _ => panic!("unknown wrap {}", wrap),
     }
 }
@@ -250,7 +258,8 @@ pub fn run_case(u: &Universe, case: &Value, routes: &[&str]) -> Vec<Value> {
     let mut evs = vec![];
     for wrap in case["wraps"].as_array().unwrap() {
         let wrap = wrap.as_str().unwrap();
-        let ds = wrap_str(u, wrap, &ms_str);
+        let ds = desc_text(u, wrap, ast, ctx);
+        let _ = &ms_str;
         let mut ev = json!({
             "id": format!("{}:{}", case["id"], wrap),
             "ev": "sat", "ctx": ctx, "wrap": wrap, "ast": ast, "abs": ast_to_abs(ast),
